@@ -498,7 +498,7 @@ class Py2Cpp(ITranspiler):
 		# 期待値2: 'range(begin, size)'
 		# 期待値3: 'range(begin, size, step)'
 		args_num = len(node.iterates.as_a(defs.FuncCall).arguments)
-		join_args = PatternParser.pluck_func_call_arguments(for_in)
+		join_args = PatternParser.pluck_func_call_arguments(self.range_call_text(node.iterates.as_a(defs.FuncCall), for_in))
 		if args_num == 1:
 			return self.render(node, f'flow/{node.classification}/range', vars={'symbol': symbols[0], 'begin': 0, 'size': join_args, 'step': 1, 'statements': statements})
 		elif args_num == 2:
@@ -507,6 +507,19 @@ class Py2Cpp(ITranspiler):
 		else:
 			begin, size, step = BlockParser.break_separator(join_args, ',')
 			return self.render(node, f'flow/{node.classification}/range', vars={'symbol': symbols[0], 'begin': begin, 'size': size, 'step': step, 'statements': statements})
+
+	def range_call_text(self, func_call: defs.FuncCall, for_in: str) -> str:
+		"""range()の引数の内、C++の比較演算子(`<`)より優先順位が低い式を括弧で囲う Note: `i < n & 3`はC++では`(i < n) & 3`"""
+		loose = (defs.OrBitwise, defs.XorBitwise, defs.AndBitwise, defs.Comparison, defs.OrCompare, defs.AndCompare, defs.NotCompare, defs.TernaryOperator)
+		if not any(isinstance(argument.value, loose) for argument in func_call.arguments):
+			return for_in
+
+		args = BlockParser.break_separator(PatternParser.pluck_func_call_arguments(for_in), ',')
+		if len(args) != len(func_call.arguments):
+			return for_in
+
+		wrapped = [f'({arg})' if isinstance(argument.value, loose) else arg for arg, argument in zip(args, func_call.arguments)]
+		return f'{range.__name__}({", ".join(wrapped)})'
 
 	def proc_for_enumerate(self, node: defs.For, symbols: list[str], for_in: str, statements: list[str]) -> str:
 		# 期待値: 'enumerate(arguments...)'
@@ -1359,7 +1372,8 @@ class Py2Cpp(ITranspiler):
 
 		if isinstance(node.iterates, defs.FuncCall) and isinstance(node.iterates.calls, defs.Var) and node.iterates.calls.tokens in [range.__name__, enumerate.__name__]:
 			spec = node.iterates.calls.tokens
-			return self.render(node, f'comp/{node.classification}_{spec}', vars={'symbols': symbols, 'iterates': for_in, 'is_const': is_const, 'is_addr_raw': is_addr_raw})
+			iterates = self.range_call_text(node.iterates, for_in) if spec == range.__name__ else for_in
+			return self.render(node, f'comp/{node.classification}_{spec}', vars={'symbols': symbols, 'iterates': iterates, 'is_const': is_const, 'is_addr_raw': is_addr_raw})
 		elif isinstance(node.iterates, defs.FuncCall) and isinstance(node.iterates.calls, defs.Relay) \
 			and node.iterates.calls.prop.tokens in FuncCallSpec.dict_iter_methods \
 			and self.reflections.type_of(node.iterates.calls.receiver).impl(refs.Object).actualize().type_is(dict):
